@@ -7,6 +7,7 @@ import EinoV.Model.C19
 import EinoV.Gen.FactsC19
 import EinoV.Expected.C19
 import EinoV.Proofs.C02Settled
+import EinoV.Proofs.C19Merge
 
 namespace EinoV.C19
 open EinoV.Gen
@@ -18,7 +19,12 @@ theorem facts_match :
     FactsC19.closesNonDataValues = Expected.C19.closesNonDataValues ∧
     FactsC19.firstCopyExpr = Expected.C19.firstCopyExpr ∧
     FactsC19.recopyExpr = "toCopyNum+1" ∧
-    FactsC19.toCopyNumExpr = "len(nextNodeKeys)-len(t.call.writeTo)-len(t.call.writeToBranches)" := by decide
+    FactsC19.toCopyNumExpr = "len(nextNodeKeys)-len(t.call.writeTo)-len(t.call.writeToBranches)" ∧
+    -- the loop of multiStreamReader.close has one of the two shapes that release every sender
+    -- (the oracle evaluates the model with the expected one; both give the same verdicts)
+    (Merge.CloseShape.ofFact FactsC19.mergeCloseLoop).sound = true ∧
+    (Merge.CloseShape.ofFact Expected.C19.mergeCloseLoop).sound = true ∧
+    FactsC19.mergeRecvDrop = Expected.C19.mergeRecvDrop := by decide
 
 /-- **ledger_balanced.** For every task — any number of data successors `W`, branches `B`,
     selected targets `sel` (a multi-branch may select none, or several) and repeated targets
@@ -103,5 +109,72 @@ theorem no_routed_value_left_waiting_workflow {V} (ops : ValOps V) (r : Runner V
     (∃ o', (n, o') ∈ histOf r x (runEager ops r pick x).batches.reverse) ∨
       SkippedIn r (histOf r x (runEager ops r pick x).batches.reverse) n :=
   runEager_ancestors_settled ops r wf hs pick x v hres n ha
+
+/-! ### merges: closing a merged reader early -/
+
+open EinoV.C19.Merge in
+/-- **merged_close_signals_every_open_source_once.** For any number of merged sources, any
+    lengths and any run of `recv` picks (so: for any set of sources whose end the merged reader
+    has already observed), the loop of `multiStreamReader.close` — in the shape read from the
+    source, fact `mergeCloseLoop` — signals every source still in `chosenList` exactly once, and no
+    source twice (`closeRecv` must not be called twice on a stream). -/
+theorem merged_close_signals_every_open_source_once (srcs : List Src) (evs : List Ev) (s : St)
+    (h : run (init srcs) evs = some s) :
+    (∀ i, i ∈ s.chosen → (closeTargets (CloseShape.ofFact FactsC19.mergeCloseLoop) s).count i = 1) ∧
+    (∀ i, (closeTargets (CloseShape.ofFact FactsC19.mergeCloseLoop) s).count i ≤ 1) := by
+  have hi := inv_run evs (inv_init srcs) h
+  have hs : (CloseShape.ofFact FactsC19.mergeCloseLoop).sound = true := by decide
+  have hn := closeTargets_nodup hi (CloseShape.ofFact FactsC19.mergeCloseLoop)
+  refine ⟨fun i hc => ?_, fun i => List.nodup_iff_count.mp hn i⟩
+  have h1 := List.nodup_iff_count.mp hn i
+  have h2 := List.count_pos_iff.mpr (open_mem_closeTargets hi _ hs hc)
+  omega
+
+open EinoV.C19.Merge in
+/-- **merged_close_releases_every_sender.** "closed early by the caller … producers blocked on a
+    send are released", for merges: whatever the consumer of a merged reader has read and
+    whichever sources have already ended, after `close` every sender is released — it had
+    delivered all its chunks (then it closes its side by itself), or its stream got `closeRecv`. -/
+theorem merged_close_releases_every_sender (srcs : List Src) (evs : List Ev) (s : St)
+    (h : run (init srcs) evs = some s) (i : Nat) (hi : i < srcs.length) :
+    (close (CloseShape.ofFact FactsC19.mergeCloseLoop) s).released i = true :=
+  released_close (inv_run evs (inv_init srcs) h) _ (by decide) hi
+
+open EinoV.C19.Merge in
+/-- the same for the other sound loop shape (signal exactly the sources still being read):
+    the property does not depend on signalling sources that have already ended. -/
+theorem merged_close_open_values_releases_every_sender (srcs : List Src) (evs : List Ev) (s : St)
+    (h : run (init srcs) evs = some s) (i : Nat) (hi : i < srcs.length) :
+    (close .openValues s).released i = true ∧ (∀ j, j ∉ s.chosen → j ∉ closeTargets .openValues s) :=
+  ⟨released_close (inv_run evs (inv_init srcs) h) _ rfl hi, fun _ hj => hj⟩
+
+open EinoV.C19.Merge in
+/-- negation, general form: a loop that uses the *positions* of `chosenList` as source indices
+    sends no signal to an open source whose index is not below the number of open sources; its
+    sender stays blocked if it still has chunks to deliver. -/
+theorem merged_close_by_position_leaves_sender_blocked (srcs : List Src) (evs : List Ev) (s : St)
+    (h : run (init srcs) evs = some s) (i : Nat) (hge : s.chosen.length ≤ i)
+    (hgot : s.gotOf i ≠ s.lenOf i) (hpre : s.preOf i = false) :
+    (close .openPositions s).released i = false :=
+  positions_miss (inv_run evs (inv_init srcs) h) hge hgot hpre
+
+open EinoV.C19.Merge in
+/-- negation witness: two sources, the first ends at once and the reader observes it; closing
+    by position then signals source 0 again and never source 1. Also on the `judge` function the
+    oracle evaluates (consumer received nothing from a 1-chunk source 1, then closed). -/
+theorem merged_close_by_position_witness :
+    (∃ s, run (init [{ len := 0 }, { len := 3 }]) [.ended 0] = some s ∧
+      closeTargets .openPositions s = [0] ∧ (close .openPositions s).released 1 = false) ∧
+    (judge .openPositions [{ len := 0 }, { len := 3 }] [] false).release = [0] ∧
+    (judge .allSources [{ len := 0 }, { len := 3 }] [] false).release = [0, 1] := by decide
+
+/-! non-vacuity: a run with chunks and observed ends; seven sources (reflect.Select path) -/
+open EinoV.C19.Merge in
+example : ∃ s, run (init [{ len := 1 }, { len := 2 }, { len := 0 }]) [.chunk 1, .ended 2, .chunk 0, .ended 0] = some s ∧
+    s.chosen = [1] ∧ closeTargets .allSources s = [0, 1, 2] ∧ closeTargets .openValues s = [1] ∧
+    closeTargets .openPositions s = [0] := by decide
+open EinoV.C19.Merge in
+example : (judge .allSources ((List.range 7).map fun i => { len := i % 2 }) [1, 3] false).stillOpen = [5] ∧
+    (judge .openPositions ((List.range 7).map fun i => { len := i % 2 }) [1, 3] false).release = [0, 1, 2, 3, 4, 6] := by decide
 
 end EinoV.C19
